@@ -7,6 +7,8 @@ import (
 	"hash/fnv"
 	"os"
 	"sort"
+	"strconv"
+	"strings"
 	"sync"
 )
 
@@ -165,6 +167,7 @@ func flushLocked() {
 	if path == "" {
 		return
 	}
+	path = strings.Replace(path, "%p", strconv.Itoa(os.Getpid()), 1)
 	var all []*Stats
 	keys := make([]string, 0, len(cur))
 	for k := range cur {
